@@ -4,6 +4,8 @@
  *           1: binary keys (embedded NULs, differing lengths, prefixes of each other) through putobj/getobj/removeobj
  *           2: user comparator: native int32 keys compared numerically (negative numbers included)
  *           3: user comparator: reversed byte-wise ordering
+ *           4: user comparator: case-insensitive strings; every call spells its key in upper or lower case, so keys that
+ *              compare equal differ in their bytes (the stored spelling is that of the first insertion)
  *   flags: t = QTREETBL_THREADSAFE, a/f = allocation failure injection (single / all-from-k) */
 #include "qlibc.h"
 #include "vh.h"
@@ -12,6 +14,8 @@
 #include <errno.h>
 
 static int profile;
+static int upper;           /* profile 4: spelling used by the current call */
+#define STRKEYS (profile == 0 || profile == 3 || profile == 4)
 static long cmps;
 static long halfobj;
 #define KMAX 100000
@@ -22,7 +26,8 @@ static size_t mkkey(unsigned char *b, int id) {
     case 1: { int h = id / 2 + 0x7f;        /* the smallest keys straddle the 0x7f/0x80 byte boundary: the ordering is over unsigned bytes */
               b[0] = (unsigned char) (h >> 8); b[1] = (unsigned char) h; if (id & 1) { b[2] = 0; return 3; } return 2; }
     case 2: { int32_t x = id * 7 - 50; memcpy(b, &x, 4); return 4; }
-    default: return (size_t) sprintf((char *) b, "r%06d", KMAX - id) + 1;
+    case 3: return (size_t) sprintf((char *) b, "r%06d", KMAX - id) + 1;
+    default: return (size_t) sprintf((char *) b, upper ? "KEY%06dX" : "key%06dx", id) + 1;
     }
 }
 static int keyid(const void *p, size_t n) {
@@ -33,10 +38,12 @@ static int keyid(const void *p, size_t n) {
     case 0: if (n == 8 && b[0] == 'k' && b[7] == 0) id = atoi((const char *) b + 1); break;
     case 1: if ((n == 2 || n == 3) && ((b[0] << 8) | b[1]) >= 0x7f) id = (((b[0] << 8) | b[1]) - 0x7f) * 2 + (n == 3); break;
     case 2: if (n == 4) { int32_t x; memcpy(&x, b, 4); if ((x + 50) % 7 == 0) id = (x + 50) / 7; } break;
-    default: if (n == 8 && b[0] == 'r' && b[7] == 0) id = KMAX - atoi((const char *) b + 1); break;
+    case 3: if (n == 8 && b[0] == 'r' && b[7] == 0) id = KMAX - atoi((const char *) b + 1); break;
+    default: if (n == 11 && (b[0] == 'k' || b[0] == 'K') && b[10] == 0) id = atoi((const char *) b + 3); break;
     }
     if (id < 0) return -1;
     unsigned char t[16]; size_t tn = mkkey(t, id);
+    if (profile == 4) return (tn == n && !strcasecmp((const char *) t, (const char *) b) && (!memcmp(b, "key", 3) || !memcmp(b, "KEY", 3))) ? id : -1;
     return (tn == n && !memcmp(t, b, n)) ? id : -1;
 }
 /* values: 1,2 ordinary (different lengths), 3 empty, 4 with embedded and trailing NUL, 5 a C string */
@@ -48,13 +55,14 @@ static size_t mkval(unsigned char *b, int v) {
     case 4: memcpy(b, "a\0b\0", 4); return 4;
     case 5: memcpy(b, "str\0", 4); return 4;
     case 6: memcpy(b, "a\0c\0", 4); return 4;          /* same size as 4 and equal up to the first NUL */
+    case 7: memcpy(b, "value-o", 7); return 7;         /* a proper prefix of value 1 */
     default: b[0] = (unsigned char) v; return 1;
     }
 }
 static int valid_(const void *p, size_t n) {
     if (!p) return n == 0 ? 3 : 0;
     unsigned char t[64];
-    for (int v = 1; v <= 6; v++) { size_t tn = mkval(t, v); if (tn == n && (n == 0 || !memcmp(t, p, n))) return v; }
+    for (int v = 1; v <= 7; v++) { size_t tn = mkval(t, v); if (tn == n && (n == 0 || !memcmp(t, p, n))) return v; }
     return -1;
 }
 static int cmp_int(const void *a, size_t an, const void *b, size_t bn) {
@@ -62,6 +70,7 @@ static int cmp_int(const void *a, size_t an, const void *b, size_t bn) {
     int32_t x = 0, y = 0; memcpy(&x, a, an < 4 ? an : 4); memcpy(&y, b, bn < 4 ? bn : 4);
     return x < y ? -1 : x > y ? 1 : 0;
 }
+static int cmp_case(const void *a, size_t an, const void *b, size_t bn) { (void) an; (void) bn; cmps++; return strcasecmp(a, b); }
 static int cmp_rev(const void *a, size_t an, const void *b, size_t bn) { cmps++; return -qtreetbl_byte_cmp(a, an, b, bn); }
 static int cmp_cnt(const void *a, size_t an, const void *b, size_t bn) { cmps++; return qtreetbl_byte_cmp(a, an, b, bn); }
 
@@ -158,6 +167,7 @@ int main(int argc, char **argv) {
             if (profile == 1) T->set_compare(T, cmp_cnt);
             else if (profile == 2) T->set_compare(T, cmp_int);
             else if (profile == 3) T->set_compare(T, cmp_rev);
+            else if (profile == 4) T->set_compare(T, cmp_case);
             memset(&cur, 0, sizeof cur);
             vh_emit("{\"op\":\"reset\",\"a\":0,\"b\":0,\"ttid\":%d}", T->tid);
             continue;
@@ -170,6 +180,7 @@ int main(int argc, char **argv) {
         for (long k = 1;; k++) {
             if (inject && k > 300) inject = 0;      /* give up injecting: finish the operation normally */
             unsigned char kb0[16], vb0[64];
+            upper = (int) (((unsigned long) vh_step * 2654435761UL >> 7) & 1);
             size_t kn = mkkey(kb0, a), vn = mkval(vb0, bb);
             /* caller data lives in exactly-sized heap buffers that are scribbled and released after the call */
             unsigned char *kb = vh_malloc(kn ? kn : 1), *vb = vh_malloc(vn ? vn : 1);
@@ -184,14 +195,14 @@ int main(int argc, char **argv) {
             vh_call_begin();
             if (inject) { if (inj_at) vh_fail_at = k; else vh_fail_from = k; }
             if (!strcmp(op, "put")) {
-                if (profile == 0 || profile == 3) {
+                if STRKEYS {
                     if (bb == 5 && (vh_step & 2)) ok = T->putstr(T, (char *) kb, (char *) vb);
                     else if (bb == 5) ok = T->putstrf(T, (char *) kb, "%s", (char *) vb);
                     else ok = T->put(T, (char *) kb, vn ? vb : NULL, vn);
                 } else ok = T->putobj(T, kb, kn, vn ? vb : NULL, vn);
             } else if (!strcmp(op, "get")) {
                 sz = 99999;
-                if ((profile == 0 || profile == 3) && (vh_step % 5) == 0) {
+                if (STRKEYS && (vh_step % 5) == 0) {
                     /* getstr has no size output: usable when the stored value is a C string */
                     char *sp = T->getstr(T, (char *) kb, newmem);
                     if (sp && vh_failed == 0) {
@@ -200,14 +211,14 @@ int main(int argc, char **argv) {
                         cmps = c1;                  /* the size lookup is the harness's, not part of the call under test */
                         sz = chk ? cur_sz : 0; p = sp;
                     } else { p = sp; sz = sp ? strlen(sp) + 1 : 0; }
-                } else if (profile == 0 || profile == 3) p = T->get(T, (char *) kb, &sz, newmem);
+                } else if STRKEYS p = T->get(T, (char *) kb, &sz, newmem);
                 else p = T->getobj(T, kb, kn, &sz, newmem);
                 ok = p != NULL;
                 if (p) { rv = valid_(p, sz); n = (long) sz; if (newmem) keep(p, rv, sz, 0); }
                 else n = (long) sz;
                 p = NULL;
             } else if (!strcmp(op, "rm")) {
-                if (profile == 0 || profile == 3) ok = T->remove(T, (char *) kb); else ok = T->removeobj(T, kb, kn);
+                if STRKEYS ok = T->remove(T, (char *) kb); else ok = T->removeobj(T, kb, kn);
             } else if (!strcmp(op, "min") || !strcmp(op, "max")) {
                 sz = 0;
                 p = op[1] == 'i' ? T->find_min(T, &sz) : T->find_max(T, &sz);
